@@ -78,7 +78,9 @@ class Verifier(Exec):
 
         def f(s, v):
             if v.kind == "excobj":
-                return [(s, ("raise", exc(v.x)))]
+                e = exc(v.x)
+                e.z = v.z             # constructor arguments (e.g. the conflict reason)
+                return [(s, ("raise", e))]
             if v.kind == "cls":
                 return [(s, ("raise", exc(v.x)))]
             raise Unsupported("raise of " + v.kind)
@@ -106,6 +108,8 @@ class Verifier(Exec):
             return [(s, None)]
         if isinstance(target, (ast.Tuple, ast.List)):
             if v.kind != "tuple":
+                if v.kind in ("K", "V", "int", "bool", "none"):
+                    return [(s, ("raise", exc("TypeError")))]     # cannot unpack non-iterable
                 raise Unsupported("unpacking of " + v.kind)
             if len(v.x) != len(target.elts):
                 return [(s, ("raise", exc("ValueError")))]
@@ -314,8 +318,26 @@ class Verifier(Exec):
     def havoc_target(self, h, m):
         env = dict(h.env)
         ctx = SpecCtx(h, h)
+        only_fresh = m.startswith("freshlist:")
+        if only_fresh:
+            m = m[5:]
         if m.startswith("list:"):
             l = self.sp(self.spec_expr(m[5:]), h, env, ctx)
+            if only_fresh:
+                # a list that exists only on some paths (e.g. the values of a
+                # mapping result): touched only if it was allocated by this call
+                isf = l.z >= self.entry_stack[-1].alloc
+                nl = fresh("hvlen", INT)
+                h.assume(nl >= 0)
+                if self.ground is not None:
+                    h.assume(nl <= self.ground)
+                self.llen(h, l.z)
+                h.heap["$len"] = z3.Store(h.heap["$len"], l.z, z3.If(isf, nl, z3.Select(h.heap["$len"], l.z)))
+                self.larr(h, l.x)
+                arr = h.heap["$" + l.x]
+                h.heap["$" + l.x] = z3.Store(arr, l.z, z3.If(isf, fresh("hv", z3.ArraySort(INT, ELEM_SORT[l.x])),
+                                                             z3.Select(arr, l.z)))
+                return
             nl = fresh("hvlen", INT)
             h.assume(nl >= 0)
             if self.ground is not None:
@@ -514,6 +536,9 @@ class Verifier(Exec):
             self.entry_stack = [pre]
             if cover_only:
                 continue
+            # instances of separately proved lemmas (contract ghost 'lemma_instances')
+            for nm, txt in con.ghost.get("lemma_instances", {}).items():
+                st.assume(self.spec(txt, ctx0, state=st))
             st.trace.append(case)
             outs = self.block(fdef.body, st)
             for s, o in outs:
@@ -550,6 +575,8 @@ class Verifier(Exec):
         elif o[0] == "raise":
             ecls = o[1].x[0]
             s.env = dict(pre.env)
+            if isinstance(o[1].z, list):
+                s.env["exc_args"] = SV("tuple", None, o[1].z)
             if ecls == "CompareError" and self.mode == "faulty" and ecls not in con.raises:
                 # C14: a failing key comparison must reach the caller and leave
                 # every object as it was (or as the contract says under
